@@ -835,3 +835,41 @@ fn edit_type_here(d: &D, s: &mut Src, cfg: &GenCfg, env_size: usize) -> D {
         other => D::Union(vec![other.clone(), D::Str]),
     }
 }
+
+/// `d` with the optionality of one property flipped (None when it has no object property)
+pub fn toggle_some_optionality(d: &D, s: &mut Src) -> Option<D> {
+    fn count(d: &D) -> usize {
+        let own = if let D::Object { props, .. } = d { props.len() } else { 0 };
+        own + d.children().iter().map(|c| count(c)).sum::<usize>()
+    }
+    fn apply(d: &D, target: &mut isize) -> D {
+        match d {
+            D::Object { props, index } => {
+                let mut p2 = vec![];
+                for p in props {
+                    let mut q = p.clone();
+                    if *target == 0 {
+                        q.optional = !q.optional;
+                    }
+                    *target -= 1;
+                    q.ty = apply(&p.ty, target);
+                    p2.push(q);
+                }
+                D::Object { props: p2, index: index.as_ref().map(|x| Box::new(apply(x, target))) }
+            }
+            D::Array(x) => D::Array(Box::new(apply(x, target))),
+            D::Set(x) => D::Set(Box::new(apply(x, target))),
+            D::Map(a, b) => D::Map(Box::new(apply(a, target)), Box::new(apply(b, target))),
+            D::Tuple(p, r) => D::Tuple(p.iter().map(|x| apply(x, target)).collect(), r.as_ref().map(|x| Box::new(apply(x, target)))),
+            D::Union(v) => D::Union(v.iter().map(|x| apply(x, target)).collect()),
+            D::Inter(v) => D::Inter(v.iter().map(|x| apply(x, target)).collect()),
+            other => other.clone(),
+        }
+    }
+    let n = count(d);
+    if n == 0 {
+        return None;
+    }
+    let mut t = s.below(n) as isize;
+    Some(apply(d, &mut t))
+}
